@@ -360,6 +360,76 @@ package cl
 // C14: sequence functions honour their keywords.
 //@ stable-struct cl.seqFunVars cl.dupInfo
 
+// The keyword parser shared by find position count remove delete substitute
+// (and their -if forms): each field is set from the value that follows its own
+// keyword, the defaults are start 0, end = whole sequence, count = unlimited.
+//@ func cl.(*seqFunVars).setKeysItem
+//@   property C14
+//@   on-store item item-is-first-argument: now == args[0]
+//@   on-store end#1 default-end-is-whole-sequence: now == 0 - 1
+//@   on-store count#1 default-count-is-unlimited: now == 9223372036854775807
+//@   on-store key key-keyword: keyword == ":key"
+//@   on-store test test-keyword: keyword == ":test"
+//@   on-store start start-keyword: keyword == ":start" && now == as(args[pos + 1], slip.Fixnum) && now >= 0
+//@   on-store end#2 end-keyword: keyword == ":end" && now == as(args[pos + 1], slip.Fixnum) && now >= 0
+//@   on-store end#3 end-nil: keyword == ":end" && args[pos + 1] == nil && now == 0 - 1
+//@   on-store count#2 count-keyword: keyword == ":count" && now == as(args[pos + 1], slip.Fixnum)
+//@   on-store fromEnd from-end-keyword: keyword == ":from-end" && (now <==> args[pos + 1] != nil)
+//@   on-call ResolveToCaller designator-follows-keyword: $arg1 == args[pos + 1]
+//@ func cl.(*seqFunVars).setKeysIf
+//@   property C14
+//@   on-store test predicate-is-first-argument: true
+//@   on-store end#1 default-end-is-whole-sequence: now == 0 - 1
+//@   on-store count#1 default-count-is-unlimited: now == 9223372036854775807
+//@   on-store key key-keyword: keyword == ":key"
+//@   on-store start start-keyword: keyword == ":start" && now == as(args[pos + 1], slip.Fixnum) && now >= 0
+//@   on-store end#2 end-keyword: keyword == ":end" && now == as(args[pos + 1], slip.Fixnum) && now >= 0
+//@   on-store end#3 end-nil: keyword == ":end" && args[pos + 1] == nil && now == 0 - 1
+//@   on-store count#2 count-keyword: keyword == ":count" && now == as(args[pos + 1], slip.Fixnum)
+//@   on-store fromEnd from-end-keyword: keyword == ":from-end" && (now <==> args[pos + 1] != nil)
+//@   on-call ResolveToCaller#1 predicate-designator: $arg1 == args[0]
+//@   on-call ResolveToCaller#2 key-designator: $arg1 == args[pos + 1]
+
+// position / find / count on lists: the key is applied to elements of the
+// window start <= index < end only, the test receives (item, key(element)) in
+// that order, and what is returned comes from the window.
+//@ define in_window(k, v, n) = v.start <= k && k < n && (v.end < 0 || v.end >= n || k < v.end)
+//@ func cl.(*Position).inList
+//@   property C14
+//@   on-call Call#1 key-gets-window-element: len($arg1) == 1 && $arg1[0] == element && offof(seq) == old(offof(seq)) + sfv.start && in_window(sfv.start + i, sfv, old(len(seq)))
+//@   on-call Call#2 test-gets-item-then-key: len($arg1) == 2 && $arg1[0] == sfv.item && $arg1[1] == key
+//@   on-call Call#3 key-gets-window-element: len($arg1) == 1 && $arg1[0] == seq[i] && idof(seq) == old(idof(seq)) && offof(seq) == old(offof(seq)) + sfv.start && in_window(sfv.start + i, sfv, old(len(seq)))
+//@   on-call Call#4 test-gets-item-then-key: len($arg1) == 2 && $arg1[0] == sfv.item && $arg1[1] == key
+//@   on-call ObjectEqual default-test-gets-item-then-key: $arg0 == sfv.item && $arg1 == key
+//@   ensures index-in-window: result0 != nil ==> (is(result0, slip.Fixnum) && in_window(as(result0, slip.Fixnum), sfv, old(len(seq))))
+//@ func cl.(*Find).inList
+//@   property C14
+//@   on-call Call#1 key-gets-window-element: len($arg1) == 1 && $arg1[0] == element
+//@   on-call Call#2 test-gets-item-then-key: len($arg1) == 2 && $arg1[0] == sfv.item && $arg1[1] == key
+//@   on-call Call#3 key-gets-window-element: len($arg1) == 1 && $arg1[0] == seq[i] && idof(seq) == old(idof(seq)) && offof(seq) == old(offof(seq)) + sfv.start && in_window(sfv.start + i, sfv, old(len(seq)))
+//@   on-call Call#4 test-gets-item-then-key: len($arg1) == 2 && $arg1[0] == sfv.item && $arg1[1] == key
+//@   on-call ObjectEqual default-test-gets-item-then-key: $arg0 == sfv.item && $arg1 == key
+
+// assoc / rassoc / member / adjoin: the two-argument test receives the item
+// first and the (keyed) element second.
+//@ func cl.(*Assoc).Call
+//@   property C14
+//@   on-call Call#2 test-gets-item-then-key: len($arg1) == 2 && $arg1[0] == item && $arg1[1] == k
+//@   on-call ObjectEqual default-test-gets-item-then-key: $arg0 == item && $arg1 == k
+//@ func cl.(*Rassoc).Call
+//@   property C14
+//@   on-call Call#2 test-gets-item-then-key: len($arg1) == 2 && $arg1[0] == item && $arg1[1] == k
+//@   on-call ObjectEqual default-test-gets-item-then-key: $arg0 == item && $arg1 == k
+//@ func cl.(*Member).Call
+//@   property C14
+//@   on-call Call#2 test-gets-item-then-key: len($arg1) == 2 && $arg1[0] == item && $arg1[1] == k
+//@   on-call ObjectEqual default-test-gets-item-then-key: $arg0 == item && $arg1 == k
+//@   ensures tail-from-match: result != nil ==> (is(result, slip.List) && len(as(result, slip.List)) > 0)
+//@ func cl.(*Adjoin).Call
+//@   property C14 C06
+//@   on-call Call#3 test-gets-item-then-key: len($arg1) == 2 && $arg1[0] == item && $arg1[1] == v
+//@   on-call ObjectEqual default-test-gets-item-then-key: $arg0 == item && $arg1 == v
+
 // remove / delete on lists: the key and the test are applied exactly to the
 // elements at positions start <= i < end (scanning in either direction).
 //@ func cl.(*Delete).inList
